@@ -74,6 +74,7 @@ type KillPlan struct {
 	Silent     bool            // accept the call, never send an update
 	State      mesos.TaskState // zero value (TASK_STARTING) means TASK_KILLED
 	Delay      time.Duration
+	CallDelay  time.Duration // the KILL call itself is answered this late (slow master): the caller blocks meanwhile
 }
 
 type SimTask struct {
@@ -288,6 +289,9 @@ func (m *FakeMaster) handle(w http.ResponseWriter, r *http.Request) {
 			rec.HTTP = status
 		}
 		m.record(rec)
+		if plan.CallDelay > 0 {
+			time.Sleep(plan.CallDelay)
+		}
 		if t != nil && plan.RefuseHTTP == 0 && !plan.Silent {
 			go m.kill(rec.TaskID, plan)
 		}
